@@ -67,7 +67,7 @@ def build_program(prog, residue_check=True):
 
     params = prog.get('params', [])
     events = prog['events']
-    rec = {'objs': {}, 'flags': {}, 'vals': [], 'inexact': False, 'negzero': False}
+    rec = {'objs': {}, 'flags': {}, 'vals': [], 'inexact': False, 'negzero': False, 'opobjs': {}, 'dcobjs': {}}
 
     def num_ok(x):
         if isinstance(x, bool) or not isinstance(x, (int, float)):
@@ -124,6 +124,7 @@ def build_program(prog, residue_check=True):
             else:
                 r = getattr(x, e['sel'])()
             num_ok(r)
+            if isinstance(r, ugn.BasicOpUGen) and not any(r is x for x in rec['opobjs'].values()): rec['opobjs'][i] = r
             return [r]
         if t == 'binop':
             a, b = arg(e['a'], env), arg(e['b'], env)
@@ -138,6 +139,7 @@ def build_program(prog, residue_check=True):
             elif s == 'floordiv': r = a // b
             else: raise ValueError(s)
             num_ok(r)
+            if isinstance(r, ugn.BasicOpUGen) and not any(r is x for x in rec['opobjs'].values()): rec['opobjs'][i] = r
             return [r]
         if t == 'madd':
             a, m, c = arg(e['a'], env), arg(e['m'], env), arg(e['c'], env)
@@ -159,6 +161,8 @@ def build_program(prog, residue_check=True):
                 mode = 'ar' if chans and getattr(chans[0], 'rate', 'scalar') == 'audio' else 'kr'
             getattr(cls, mode)(bus, chans)
             rec['objs'][i] = last_child()
+            if mode == 'ar':
+                rec['dcobjs'][i] = _libsc3.main._current_synthdef._children[-2]
             rec['out_mode'] = rec.get('out_mode', {})
             rec['out_mode'][i] = mode
             return []
@@ -229,6 +233,19 @@ def build_program(prog, residue_check=True):
     # where each constructor event's unit ended up (object identity), for ordering oracles
     kids = list(sd._children)
     out['positions'] = {str(ei): [i for i, c in enumerate(kids) if c is obj] for ei, obj in rec['objs'].items()}
+    # origin token of every emitted unit for the translation validator (object identity)
+    toks = []
+    for c in kids:
+        tok = '0' if (params and type(c).__name__ == 'Control') else '-'
+        for ei, obj in rec['objs'].items():
+            if obj is c: tok = str(ei)
+        for ei, obj in rec['opobjs'].items():
+            if obj is c: tok = str(ei)
+        for ei, obj in rec['dcobjs'].items():
+            if obj is c: tok = f'{ei}.d'
+        toks.append(tok)
+    out['origins'] = ','.join(toks)
+    out['hex'] = raw.hex()
     out['parsed'] = {'name': d['name'], 'nparams': len(d['params']),
                      'outs': [[u['rate'], len(u['ins']) - 1, u['cls']] for u in d['ugens'] if u['cls'] in ('Out', 'ReplaceOut')]}
     out['name'] = d['name']
@@ -468,4 +485,32 @@ def run(payload):
     res = []
     for prog in payload['cases']:
         res.append(build_program(prog))
+    return res
+
+
+def opcode_probe(payload):
+    """Every operator of the server reference tables, requested by its canonical name through the
+    real constructors inside a build: returns the special index the emitted unit carries."""
+    _init(payload.get('mode', 'nrt'))
+    from sc3.synth.synthdef import SynthDef
+    from sc3.synth.ugen import UnaryOpUGen, BinaryOpUGen
+    from sc3.synth.ugens.noise import WhiteNoise
+    from sc3.synth.ugens.inout import Out
+    res = []
+    for arity, names in (('unary', opcodes_ref.UNARY), ('binary', opcodes_ref.BINARY)):
+        for name in names:
+            got = {}
+
+            def f():
+                a, b = WhiteNoise.ar(), WhiteNoise.kr()
+                u = UnaryOpUGen.new(name, a) if arity == 'unary' else BinaryOpUGen.new(name, a, b)
+                Out.ar(0, u)
+            try:
+                sd = SynthDef('p', f)
+                d = scgf.parse(bytes(sd.as_bytes()))[0]
+                cls = 'UnaryOpUGen' if arity == 'unary' else 'BinaryOpUGen'
+                sp = [u['sp'] for u in d['ugens'] if u['cls'] == cls]
+                res.append([arity, name, sp[0] if len(sp) == 1 else f'{len(sp)} units'])
+            except Exception as ex:
+                res.append([arity, name, f'{type(ex).__name__}'])
     return res
